@@ -144,6 +144,27 @@ func gen(tier string) []proto.Item {
 				}
 			}
 		}
+		// an identifier one past the LAST probe of the run (never sent by anybody): the edge of every per-TTL table
+		for _, form := range []string{vi.TEForm, vi.DestForm} {
+			fields := simnet.Fields(vi.Kind, form)
+			if len(fields) == 0 {
+				continue
+			}
+			idf := fields[len(fields)-1]
+			for _, last := range []int{4, 255} {
+				s := base(v, false)
+				s.Last = last
+				if last == 255 {
+					s.First, s.Dest = 253, 254
+				}
+				from := proto.Evil(vi.V6).String()
+				if !simnet.IsICMPError(form) {
+					from = s.Target().String()
+				}
+				s.Inject = []proto.Inject{{OnTTL: s.First, AnswerTTL: last, Form: form, From: from, DelayUs: 1500, Tag: "noise", Perturb: &simnet.Perturb{Field: idf, Op: "+1"}}}
+				items = append(items, proto.Item{Scn: s, Class: fmt.Sprintf("%s/%s/field-%s/one-past-the-last-probe/last-%d", v, form, idf, last)})
+			}
+		}
 		// SACK: hostile bytes during the handshake (mutations of the SYN-ACK preceding the genuine one)
 		if vi.Kind == "sack" {
 			for _, kind := range append(append([]string{}, kinds...), "ts-opt-len") {
